@@ -38,7 +38,10 @@ Frag == << <<101, 118, 97, 108, 40, 49, 41>>,                                   
            <<120, 61, 102, 40, 49, 41, 59, 32, 103, 40, 50, 41>>,                           \* x=f(1); g(2)
            <<101, 118, 97, 108, 40, 40, 49, 43, 50, 41, 42, 51, 41>>,          \* eval((1+2)*3)   a bracketed sub-expression inside the call
            <<61, 65, 49, 43, 101, 120, 101, 99, 40, 40, 50, 41, 41>>,             \* =A1+exec((2))
-           <<111, 115, 46, 115, 121, 115, 116, 101, 109, 40, 40, 34, 108, 115, 34, 41, 41>> >>   \* os.system(("ls"))
+           <<111, 115, 46, 115, 121, 115, 116, 101, 109, 40, 40, 34, 108, 115, 34, 41, 41>>,   \* os.system(("ls"))
+           <<101, 118, 97, 108, 40, 10, 49, 41>>,                        \* eval( line break 1)   the argument list runs over a line break
+           <<61, 65, 49, 43, 101, 120, 101, 99, 40, 10, 34, 120, 34, 41>>,  \* =A1+exec( line break "x")
+           <<61, 101, 120, 101, 99, 40, 49, 41, 43, 49>> >>                \* =exec(1)+1
 GCols == 1..4
 GRows == 1..5
 Places == {<<s, c, r>> : s \in 1..2, c \in GCols, r \in GRows}
